@@ -331,7 +331,7 @@ func c06RunMode(mode, src string) string {
 // c06InChild runs one case in a child process. A dead child is classified by what the Go runtime wrote to
 // stderr, so that a different crash cannot hide in a known class:
 //
-//	CRASH so-stringify    stack overflow inside fmt's printer or stringutil's JSON conversion (known finding cyclic-container-stringify)
+//	CRASH so-stringify    stack overflow inside a printer: fmt, stringutil's conversions, encoding/json (log / error / debug) (known finding cyclic-container-stringify)
 //	CRASH so-deepequal    stack overflow inside reflect.DeepEqual (same known finding: ==, in, statematch on such a value)
 //	CRASH concurrent-map  "fatal error: concurrent map …" (known finding unsynchronised-shared-container)
 //	CRASH other <text>    anything else (never predicted by the model: always a violation)
@@ -366,7 +366,7 @@ func c06InChild(payload string, firstWord bool) string {
 func c06CrashClass(stderr string) string {
 	switch {
 	case strings.Contains(stderr, "stack overflow") &&
-		(strings.Contains(stderr, "fmt.(*pp)") || strings.Contains(stderr, "stringutil.ConvertToJSONMarshalableObject")):
+		(strings.Contains(stderr, "fmt.(*pp)") || strings.Contains(stderr, "stringutil.Convert") || strings.Contains(stderr, "encoding/json.")):
 		return "CRASH so-stringify"
 	case strings.Contains(stderr, "stack overflow") && strings.Contains(stderr, "reflect.deepValueEqual"):
 		return "CRASH so-deepequal"
